@@ -4,6 +4,7 @@ import os, json, shutil, random, tempfile
 from tools import common, synth, recordings, impl
 
 FOCUS = {
+    'C04': dict(final=('E ', 'P client', 'P base'), trace=(), spec=True),
     'C05': dict(final=('E ', 'P client', 'P base', 'PLAYER'), trace=(), spec=True),
     'C06': dict(final=('E ', 'P client'), trace=('CN',), spec=True),
     'C07': dict(final=(), trace=('C', 'CP', 'CN'), spec=False),
